@@ -14,6 +14,14 @@ impl Clone for Timer {
     #[verifier::external_body]
     fn clone(&self) -> (r: Timer) ensures r.until == self.until, r.done.id == self.done.id, r.is_restart == self.is_restart { unimplemented!() }
 }
+//@ item deadline
+//@ header
+fn deadline(grace: Duration, env: &mut Env) -> (r: Instant)
+    ensures
+        // (the saturation to a far future instant on overflow is dead code in this model: Instant/Duration arithmetic is mathematical here, an ASSUMPTION
+        // listed in the evidence; that a huge grace no longer panics the job task is replayed on the real code: history huge_grace_does_not_panic_the_job_task)
+        r.t == final(env).now@ + grace.d, // OBL:C06.deadline.is_now_plus_grace
+        grows(old(env), final(env)), final(env).now == old(env).now, same_world(old(env), final(env)),
 //@ item Timer::stop
 //@ header
 pub fn stop(grace: Duration, done: Flag, env: &mut Env) -> (r: Self)
